@@ -36,11 +36,12 @@ def _add_subrs(cff, private, local, glob):
         private.Subrs = subrs
 
 
-def build_cff(programs, local=None, glob=None, private=None, advances=None, notdef=None):
-    """programs: list of token lists -> (sfnt bytes, glyph names).  Glyph i+1 is programs[i]."""
+def build_cff(programs, local=None, glob=None, private=None, advances=None, notdef=None, names=None):
+    """programs: list of token lists -> (sfnt bytes, glyph names).  Glyph i+1 is programs[i].
+    names: optional glyph names (without .notdef) - a name-keyed CFF font uses them in its charset."""
     from fontTools.misc.psCharStrings import T2CharString
 
-    names = glyph_names(len(programs))
+    names = [".notdef"] + list(names) if names else glyph_names(len(programs))
     fb = _base(names)
     fb.setupNameTable({"familyName": "C12", "styleName": "Regular"})
     cs = {".notdef": T2CharString(program=list(notdef or ["endchar"]))}
